@@ -4,23 +4,28 @@
 (*   now      virtual time (ms)                                                            *)
 (*   alarms   id -> [due, st]   st in {"none","pending","fired","removed"}                 *)
 (*   watches  fd -> "none" | "watched" | "removed"                                         *)
-(*   idles    id -> "none" | "active" | "removed"                                          *)
+(*   wgen     fd -> generation of the watch now (or last) registered on the descriptor: a   *)
+(*            descriptor may be watched again after its watch was removed; that is a NEW   *)
+(*            watch with a callback of its own, the callback of the old one stays removed  *)
+(*   idles    id -> "none" | "active" | "removed"   (one id per enter_idle() call)         *)
 (*   readable set of descriptors that currently have data                                  *)
 (*   dirty    an alarm/watch callback has run since the idle callbacks last all ran        *)
 (*   seen     idle callbacks run since the last alarm/watch callback                       *)
 (*   owed     descriptors the loop was told are ready and has not served yet               *)
-(*   raised   kinds of exception raised by callbacks so far ("exit", "error")              *)
+(*   raised   kinds of exception raised by callbacks so far: "exit" (ExitMainLoop), "error"  *)
+(*            (an Exception), "base" (a BaseException that is not an Exception)              *)
 (* Judge(s, e) returns [s |-> next state, why |-> first broken clause or "-"].             *)
 EXTENDS Integers, Sequences, FiniteSets, TLC
 
 MaxA == 8
 MaxF == 3
-MaxI == 3
+MaxI == 5
 Inf == -1
 
 InitState == [now |-> 0,
               alarms |-> [i \in 1..MaxA |-> [due |-> 0, st |-> "none"]],
               watches |-> [f \in 1..MaxF |-> "none"],
+              wgen |-> [f \in 1..MaxF |-> 0],
               idles |-> [i \in 1..MaxI |-> "none"],
               readable |-> {}, dirty |-> FALSE, seen |-> {}, owed |-> {}, raised |-> {}]
 
@@ -32,13 +37,15 @@ MinDue(s) == IF Pending(s) = {} THEN Inf
 SeqSet(q) == {q[j] : j \in 1..Len(q)}
 
 R(s, w) == [s |-> s, why |-> w]
+\* what comes out of run() for an exception of kind k raised by a callback: the exception itself (recorded by its class)
+ExcName(k) == CASE k = "error" -> "VfError" [] k = "base" -> "VfBase" [] OTHER -> "-"
 
 AfterCallback(s) == [s EXCEPT !.dirty = TRUE, !.seen = {}]
 
 Judge(s, e) ==
   CASE e.t = "reg_alarm" ->
          R([s EXCEPT !.alarms[e.id] = [due |-> s.now + e.delay, st |-> "pending"]], "-")
-    [] e.t = "reg_watch" -> R([s EXCEPT !.watches[e.fd] = "watched"], "-")
+    [] e.t = "reg_watch" -> R([s EXCEPT !.watches[e.fd] = "watched", !.wgen[e.fd] = e.gen], "-")
     [] e.t = "reg_idle" -> R([s EXCEPT !.idles[e.id] = "active"], "-")
     [] e.t = "alarm_cb" ->
          LET a == s.alarms[e.id]
@@ -52,6 +59,8 @@ Judge(s, e) ==
     [] e.t = "watch_cb" ->
          LET s2 == AfterCallback([s EXCEPT !.owed = @ \ {e.fd}])
          IN IF s.watches[e.fd] = "removed" THEN R(s2, "removed_watch_never_runs")
+            \* the callback of an earlier watch on this descriptor: that watch was removed, whatever was registered since
+            ELSE IF e.gen # s.wgen[e.fd] THEN R(s2, "removed_watch_never_runs")
             ELSE IF s.watches[e.fd] # "watched" THEN R(s2, "unknown_watch")
             ELSE R(s2, "-")
     [] e.t = "idle_cb" ->
@@ -71,6 +80,12 @@ Judge(s, e) ==
     [] e.t = "remove_idle" ->
          LET s1 == [s EXCEPT !.idles[e.id] = IF @ = "active" THEN "removed" ELSE @]
          IN R([s1 EXCEPT !.dirty = IF ActiveIdles(s1) \subseteq s.seen THEN FALSE ELSE @], "-")
+    \* a call the program makes outside any callback (before run(), between two runs) is part of the quantified histories: a removal
+    \* that raises reports nothing, and what it should have removed is still there
+    [] e.t = "call_failed" -> R(s, CASE e.call = "remove_alarm" -> "removal_reports_success"
+                                     [] e.call = "remove_watch" -> "watch_can_be_removed"
+                                     [] e.call = "watch_file" -> "descriptor_can_be_watched"
+                                     [] OTHER -> "call_outside_callbacks_is_accepted")
     [] e.t = "slow" -> R([s EXCEPT !.now = @ + e.d], "-")
     [] e.t = "drain" -> R([s EXCEPT !.readable = @ \ {e.fd}, !.owed = @ \ {e.fd}], "-")
     [] e.t = "raise" -> R([s EXCEPT !.raised = @ \cup {e.kind}], "-")
@@ -95,8 +110,8 @@ Judge(s, e) ==
     [] e.t = "run_end" ->
          IF e.outcome = "stuck" THEN R(s, "loop_never_serves_due_event")
          ELSE IF s.raised = {} THEN R(s, IF e.outcome = "return" THEN "run_returned_without_exit" ELSE "run_raises_only_what_a_callback_raised")
-         ELSE IF e.outcome = "raise" /\ e.exc # "VfError" THEN R(s, "run_raises_only_what_a_callback_raised")
-         ELSE IF s.raised = {"error"} /\ e.outcome # "raise" THEN R(s, "error_reraised_from_run")
+         ELSE IF e.outcome = "raise" /\ e.exc \notin {ExcName(k) : k \in s.raised \ {"exit"}} THEN R(s, "run_raises_only_what_a_callback_raised")
+         ELSE IF "exit" \notin s.raised /\ e.outcome # "raise" THEN R(s, "error_reraised_from_run")
          ELSE IF s.raised = {"exit"} /\ e.outcome # "return" THEN R(s, "exit_ends_run_silently")
          ELSE R(s, "-")
     [] OTHER -> R(s, "no_action")
